@@ -33,7 +33,7 @@ def make_job(e, t, x, ctx, inverse, regime='', tag=None):
         if rec:
             rec.close()
     reqs, rec_inputs = [], []
-    if e.kind in ('nonlin', 'cdf'):
+    if e.kind in ('nonlin', 'cdf', 'affine_t'):
         reqs = [R.model_request(e, t, x, ctx, inverse)]
     elif rec is not None and rec.calls:
         if e.kind == 'ar' and inverse:
@@ -66,7 +66,7 @@ def close(a, b, atol, rtol):
     return abs(a - b) <= atol + rtol * max(abs(a), abs(b))
 
 
-def compare(ctx, j, prop, observables=('out', 'ld'), atol=1e-9, rtol=1e-9, check_cond=False, branch_extra=''):
+def compare(ctx, j, prop, observables=('out', 'ld'), atol=1e-9, rtol=1e-9, check_cond=True, branch_extra=''):
     """-> True if the job agrees.  Records cases/disagreements in ctx."""
     e = j.e
     case = {'entry': e.name, 'regime': j.regime, 'inverse': j.inverse, 'prec': j.prec, 'tag': j.tag,
@@ -101,7 +101,7 @@ def compare(ctx, j, prop, observables=('out', 'ld'), atol=1e-9, rtol=1e-9, check
         # implementation declares eps = 1e-5 for its root selection
         atol = max(atol, 2e-6 if j.prec == 'f64' else 5e-3)
     per_row = max(1, len(yl) // max(1, len(ldl)))
-    unit = 1e-15 if j.prec == 'f64' else 1e-6
+    unit = 1e-15 if j.prec == 'f64' else 1e-4
     kap = [unit * math.exp(min(60.0, abs(v))) if math.isfinite(v) else 0.0 for v in ldl]
     if 'out' in observables:
         if len(out) != len(yl):
@@ -130,7 +130,11 @@ def compare(ctx, j, prop, observables=('out', 'ld'), atol=1e-9, rtol=1e-9, check
         gb = bits.tensor_bits(got)
         mb = j.resp[0]['f'][2]
         if gb != mb:
-            ok = False; why = 'conditioner input differs from the identity split the model predicts'
+            # bit-for-bit unless an unconditional transform computed the identity split (then: numerically)
+            mv = bits.dec(mb, j.prec)
+            gv = got.tolist()
+            if not (e.extra.get('uncond') and len(mv) == len(gv) and all(close(a, b, atol, rtol) for a, b in zip(gv, mv))):
+                ok = False; why = 'conditioner input differs from the identity split the model predicts'
     nontriv = any(abs(a - b) > 1e-12 for a, b in zip(yl, j.x.reshape(-1).tolist())) or any(abs(v) > 1e-12 for v in ldl)
     ctx.case(key=(e.name, j.regime, j.inverse, j.prec, j.tag), branch=br, nontrivial=nontriv, n=n,
              sample={'entry': e.name, 'regime': j.regime, 'inverse': j.inverse, 'x': j.x.reshape(-1).tolist()[:4],
